@@ -52,7 +52,9 @@ Definition add_steps (r : reg) (voidn : nat) : list (desc + eclass) :=
   let base_key := match r_name r with 0 => (if is_void r then KVoid voidn else KNone) | n => KName n end in
   match r_form r with
   | FResult _ _ fs _ =>
-      map (fun '(i, f) => inl (mkDesc (f_ty f) (name_key (f_name f)) (f_group f) r i voidn)) (combine (seq 0 (length fs)) fs)
+      (* a field is a keyed service or a group member, never both *)
+      map (fun '(i, f) => if negb (f_name f =? 0) && negb (f_group f =? 0) then inr EValidation
+                          else inl (mkDesc (f_ty f) (name_key (f_name f)) (f_group f) r i voidn)) (combine (seq 0 (length fs)) fs)
   | FCtor _ _ (t0 :: t1 :: ts) _ =>
       map (fun '(i, t) => inl (mkDesc t (match i with 0 => name_key (r_name r) | _ => KNone end) (r_group r) r i voidn))
           (combine (seq 0 (length (t0 :: t1 :: ts))) (t0 :: t1 :: ts))
@@ -312,6 +314,8 @@ Definition cancels (r : reg) (inv : nat) : bool :=
 Definition out_inst (r : reg) (inv k : nat) : inst := IObj (r_id r) inv k (nth_default 0 (r_dyn r) k).
 (* an output the constructor leaves nil (multi-output constructors only); what is remembered for it reads as nil *)
 Definition out_is_nil (r : reg) (k : nat) : bool := nth_default 0 (r_dyn r) k =? T_NILOUT.
+(* how a nil group member reads in the slice handed out *)
+Definition NIL_MEMBER : inst := IObj 0 0 0 T_NILOUT.
 Definition aval_of (i : inst) : aval :=
   match i with
   | IObj _ _ _ dyn => if dyn =? T_NILOUT then AZero else AInst i
@@ -341,6 +345,7 @@ Section Resolve.
     | m :: ms' =>
         match recd rs h m with
         | (rs1, ROkV (AInst i)) => group_loop rs1 h ms' (i :: acc)
+        | (rs1, ROkV AZero) => group_loop rs1 h ms' (NIL_MEMBER :: acc)   (* a member its constructor left nil *)
         | (rs1, ROkV _) => (rs1, RFail EOther)
         | (rs1, r) => (rs1, r)
         end
